@@ -175,6 +175,30 @@ func Run(c *Case) *vkit.Outcome {
 		from = offsets[c.Start-1]
 	}
 	rest := c.N - c.Start // events after the start offset
+	if c.Config == "durable" && c.Batch > 0 {
+		// A page of the paged replay is one server chunk.  A batch smaller
+		// than a chunk cuts it short and loses the rest (listed finding of
+		// C10/C11, probed separately); any batch that is at least as large as
+		// every chunk of this replay is within the property.
+		maxChunk, cur := 0, from
+		for i := 0; i <= c.N+1; i++ {
+			page, next, rerr := store.Read(bg, cur, 0)
+			if rerr != nil || len(page) == 0 {
+				break
+			}
+			if len(page) > maxChunk {
+				maxChunk = len(page)
+			}
+			cur = next
+		}
+		if c.Batch < maxChunk {
+			o.Exclude("durablestream:replay-batch-smaller-than-a-chunk(listed finding, probed separately)", 1)
+			return o
+		}
+		if c.Batch < rest {
+			o.Class("durable_paged_replay_over_several_pages")
+		}
+	}
 	badAt := -1           // index (within the replayed suffix, 0-based) before which the bad row sits
 	if c.Fault == "badrow" && c.K >= 1 && c.K <= c.N && sqlPath != "" {
 		if c.K >= c.Start {
